@@ -101,19 +101,27 @@ def dev_pops(pops, per_pop):
 
 # ------------------------------------------------------------------ adjudication
 def adjudicate(rep, prop, bins, prof, chosen, name=None, max_steps=6000, max_ev=300):
-    """chosen: list of (case, runs, results, done).  Validates every distinct
-    recording with TLC; returns list of (case, run, trace, verdict, prof) and
-    fills in samples."""
-    traces, owners = bf.group_traces(chosen, tag=prof[0] + ":")
-    bycase = {c["id"]: (c, runs) for (c, runs, res, done) in chosen}
-    verdicts = bf.validate(traces, rep, name or prop, max_steps=max_steps, max_ev=max_ev)
-    out = []
-    for t in traces:
-        cid = t["id"].split(":", 1)[1].rsplit("#", 1)[0]
-        case, runs = bycase[cid]
-        own = owners[t["id"]]
-        out.append((case, [runs[i] for i in own], t, verdicts[t["id"]], prof))
-    return out
+    """chosen: list of (case, runs, results, done) - or, with prof=None, a list of
+    (profile, chosen) pairs.  Validates every distinct recording with TLC (identical
+    recordings of the same case under different configurations or profiles are
+    validated once); returns list of (case, runs, trace, verdict, prof)."""
+    groups = chosen if prof is None else [(prof, chosen)]
+    uniq, order, entries = {}, [], []
+    for pf, ch in groups:
+        traces, owners = bf.group_traces(ch, tag=pf[0] + ":")
+        bycase = {c["id"]: (c, runs) for (c, runs, res, done) in ch}
+        for t in traces:
+            cid = t["id"].split(":", 1)[1].rsplit("#", 1)[0]
+            case, runs = bycase[cid]
+            key = json.dumps([cid, t["outFail"], t["inFail"], t["inAbsent"], t["outAbsent"], t["log"], t["claim"],
+                              t["mustFinish"], t["detail"], t["refused"]])
+            if key not in uniq:
+                uniq[key] = t
+                order.append(t)
+            entries.append((case, [runs[i] for i in owners[t["id"]]], t, key, pf))
+    verdicts = bf.validate(order, rep, name or prop, max_steps=max_steps, max_ev=max_ev)
+    rep.count("recordings_identical_across_profiles", len(entries) - len(order))
+    return [(case, runs, t, verdicts[uniq[key]["id"]], pf) for (case, runs, t, key, pf) in entries]
 
 
 def settle(rep, prop, bins, judged, shrink=True):
@@ -210,7 +218,8 @@ def run_equivalence(prop, tier, backend_runs, pops, per_pop, profiles=("release"
         rep.count("cases_with_disagreeing_backends", len(dis))
         rep.count("distinct_nontrivial", sum(1 for e in chosen if nontrivial(e[3])))
         rep.count("exhaustive_cases_validated", len(keep) + sum(1 for e in dis if e[0]["pop"] == "E"))
-        judged += adjudicate(rep, prop, bins, prof, chosen)
+        judged.append((prof, chosen))
+    judged = adjudicate(rep, prop, bins, None, judged)
     rep.coverage["rule"] = ("cases: populations %s (E = every balanced program up to a length bound, enumerated by "
                             "TLC from BFGen.tla; the others seeded), run on %s; a case is non-trivial when its "
                             "canonical run has >= 1 loop iteration and >= 1 event; every distinct recording of a "
@@ -285,7 +294,8 @@ def halting_cases(rep, prop, hv, tier, pops, per_pop, want=None):
         keepE = [c for c in pre if c["pop"] == "E"]
         others = [c for c in pre if c["pop"] != "E"]
         rng.shuffle(others)
-        pre = (keepE + others)[:max(want, 0)] if len(keepE) < want else rng.sample(keepE, want)
+        ne = min(len(keepE), max(want - len(others), want // 3))
+        pre = rng.sample(keepE, ne) + others[: want - ne]
     facts = classify(rep, prop, pre)
     out = []
     for c in pre:
@@ -488,7 +498,8 @@ def c10(tier):
     for prof in ("release", "debug"):
         executed = bf.execute(bins[prof], cases, runs_for)
         rep.count("unchecked_runs", sum(len(e[1]) for e in executed))
-        judged += adjudicate(rep, "C10", bins, prof, executed)
+        judged.append((prof, executed))
+    judged = adjudicate(rep, "C10", bins, None, judged)
     rep.coverage["distinct_nontrivial"] = sum(1 for c in cases if c["facts"]["hi"] - c["facts"]["lo"] >= 1
                                               and c["facts"]["steps"] > 5)
     rep.coverage["rule"] = ("cases halting by BF.tla, whose pointer excursion [lo,hi] comes from the specification's "
@@ -504,20 +515,23 @@ def c10(tier):
 # ------------------------------------------------------------------ C06 (executable half)
 def c06_runs(tier, rep, bins):
     hv = bins["release"]
-    per = {"T": 1500, "S": 600, "N": 150, "rnd": 400, "E": 6000} if tier == "quick" else \
+    per = {"T": 900, "S": 300, "N": 100, "rnd": 300, "M": 200} if tier == "quick" else \
           {"T": 20000, "S": 8000, "N": 3000, "rnd": 6000, "E": 60000, "M": 4000}
     sd = seed()
     pops, per = dev_pops(["T", "S", "N", "rnd", "E", "M"], per)
     cases = override_cases() or population(hv, tier, sd, pops, per)
 
-    def runs_for(c):
+    def runs_release(c):
         runs = []
         for a in ("guardl", "guardr"):
             runs += config_runs({"alloc": a})
         return runs
 
+    def runs_debug(c):      # the debug build differs in the bytecode interpreter's dispatch only
+        return [{"backend": "bcint", "level": l, "alloc": a} for l in (0, 2) for a in ("guardl", "guardr")]
+
     judged = []
-    for prof in ("release", "debug"):
+    for prof, runs_for in (("release", runs_release), ("debug", runs_debug)):
         executed = bf.execute(bins[prof], cases, runs_for, screen=SCREEN)
         halting = [e for e in executed if e[3].get("refclass") == "halts"]
         rep.count("guarded_runs", sum(len(e[1]) for e in halting))
@@ -527,12 +541,12 @@ def c06_runs(tier, rep, bins):
         roam = [e for e in agr if e[0]["pop"] == "T" or e[3].get("hi", 0) - e[3].get("lo", 0) > 64]
         other = [e for e in agr if e not in roam]
         random.Random(sd).shuffle(other)
-        chosen = dis + roam[: (1500 if tier == "quick" else 30000)] + other[: (800 if tier == "quick" else 20000)]
+        chosen = dis + roam[: (1500 if tier == "quick" else 30000)] + other[: (500 if tier == "quick" else 20000)]
         rep.count("distinct_nontrivial", sum(1 for e in chosen if e[3].get("hi", 0) - e[3].get("lo", 0) >= 8))
         rep.count("cases_moving_more_than_1000_cells",
                   sum(1 for e in chosen if e[3].get("hi", 0) - e[3].get("lo", 0) >= 1000))
-        judged += adjudicate(rep, "C06", bins, prof, chosen)
-    return judged
+        judged.append((prof, chosen))
+    return adjudicate(rep, "C06", bins, None, judged)
 
 
 # ------------------------------------------------------------------ C17 (executable half)
